@@ -1,7 +1,9 @@
 //! ilv: drives the real inputlayer code for the TLA+-based checks in /verif.
 #![allow(dead_code)]
 mod engine;
+mod pool;
 mod prog;
+mod store;
 mod val;
 
 use std::collections::BTreeMap;
@@ -35,6 +37,7 @@ fn main() {
     match a[1].as_str() {
         "drive-engine" => engine::main(&args),
         "replay-engine" => engine::replay(&args),
+        "drive-store" => store::main(&args),
         other => {
             eprintln!("unknown subcommand {other}");
             std::process::exit(2);
